@@ -1,6 +1,6 @@
 # -*- coding: utf-8 -*-
 
-from typing import Any, Dict, List, Mapping, Optional, Sequence, Tuple
+from typing import Any, Dict, List, Mapping, Optional, Sequence, Set, Tuple
 
 from ..exc import CoercionError, ValidationError, VariablesCoercionError
 from ..lang.ast import (
@@ -55,7 +55,6 @@ def _nesting_levels(
     fragments: Mapping[str, FragmentDefinition],
     variables: Mapping[str, Any],
     budget: int,
-    memo: Dict[Tuple[int, ...], int],
 ) -> int:
     """
     Number of nested field levels selected by a selection set.
@@ -64,42 +63,52 @@ def _nesting_levels(
     ``@skip`` / ``@include`` are honoured. Fields sharing a response key are
     merged (as they are during execution) so all their sub-selections count.
 
-    ``budget`` bounds the nesting of the traversal (fragment cycles would
-    otherwise never end): :class:`ExpansionBudgetExhausted` is raised when it is
-    used up. ``memo`` (one per operation) avoids measuring the same selections
-    again when a fragment is spread in many places.
+    The selection is measured level by level (there is no recursion per
+    level, so the depth which can be measured is not bounded by the
+    interpreter's stack); identical selection sets met at the same level are
+    measured once. ``budget`` bounds the number of levels and the nesting of
+    fragment expansions (fragment cycles would otherwise never end):
+    :class:`ExpansionBudgetExhausted` is raised when it is used up.
     """
-    if budget <= 0:
-        raise ExpansionBudgetExhausted()
-
-    key = tuple(id(selection) for selection in selections)
-    if key in memo:
-        return memo[key]
-
     levels = 0
-    collected = collect_fields_untyped(
-        selections,
-        fragments,
-        variables,
-        skip_selection=_skip_unless_unknown,
-        _budget=budget,
-    )
-    for fields in collected.values():
-        subselections = [
-            selection
-            for field in fields
-            if field.selection_set is not None
-            for selection in field.selection_set.selections
-        ]
-        levels = max(
-            levels,
-            1
-            + _nesting_levels(
-                subselections, fragments, variables, budget - 1, memo
-            ),
-        )
+    frontier = [selections]
 
-    memo[key] = levels
+    while frontier:
+        if budget <= 0:
+            raise ExpansionBudgetExhausted()
+
+        seen = set()  # type: Set[Tuple[int, ...]]
+        next_frontier = []  # type: List[Sequence[Selection]]
+        found = False
+
+        for level_selections in frontier:
+            collected = collect_fields_untyped(
+                level_selections,
+                fragments,
+                variables,
+                skip_selection=_skip_unless_unknown,
+                _budget=budget,
+            )
+            for fields in collected.values():
+                found = True
+                subselections = [
+                    selection
+                    for field in fields
+                    if field.selection_set is not None
+                    for selection in field.selection_set.selections
+                ]
+                key = tuple(id(selection) for selection in subselections)
+                if subselections and key not in seen:
+                    seen.add(key)
+                    next_frontier.append(subselections)
+
+        if not found:
+            break
+
+        levels += 1
+        budget -= 1
+        frontier = next_frontier
+
     return levels
 
 
@@ -202,18 +211,31 @@ class MaxDepthValidationRule:
                         fragments,
                         op_variables,
                         budget,
-                        {},
                     )
                     - 1,
                 )
-            except (ExpansionBudgetExhausted, RecursionError):
+            except ExpansionBudgetExhausted:
                 # A fragment cycle (reported by the NoFragmentCycles rule) is
-                # selected, or the document is nested deeper than the
-                # interpreter can follow: there is no depth to compare.
+                # selected: there is no depth to compare.
                 errors.append(
                     ValidationError(
                         'Operation "%s" depth is unbounded and exceeds maximum '
                         "depth (%s)"
+                        % (
+                            op.name.value if op.name else "<ANONYMOUS>",
+                            self.max_depth,
+                        ),
+                        nodes=[op],
+                    ),
+                )
+                continue
+            except RecursionError:
+                # Fragment expansions nested deeper than the interpreter can
+                # follow within one level: not measurable, reported as such.
+                errors.append(
+                    ValidationError(
+                        'Operation "%s" is nested too deep to be measured and '
+                        "exceeds maximum depth (%s)"
                         % (
                             op.name.value if op.name else "<ANONYMOUS>",
                             self.max_depth,
